@@ -31,11 +31,19 @@ func main() {
 		}
 		b2, _ := w.Enc.Marshal(d)
 		if !bytes.Equal(b, b2) {
-			fmt.Println("REENCODE", ob.Kind, string(b), string(b2))
+			if bytes.Equal(gen.Canonical(b), gen.Canonical(b2)) {
+				fmt.Println("REENCODE-ORDER", ob.Kind)
+			} else {
+				fmt.Println("REENCODE", ob.Kind, string(b), string(b2))
+			}
 		}
 		if v, ok := ob.V.(util.IsValider); ok {
-			e1 := v.IsValid(w.NetworkID)
-			e2 := d.(util.IsValider).IsValid(w.NetworkID)
+			var nid []byte
+			if ob.Signed {
+				nid = w.NetworkID
+			}
+			e1 := v.IsValid(nid)
+			e2 := d.(util.IsValider).IsValid(nid)
 			if e1 != nil || e2 != nil {
 				fmt.Println("ISVALID", ob.Kind, e1, e2)
 			}
